@@ -43,14 +43,16 @@ def build_case(b, name):
         threads.append(_ops(sc, piped_worker=(kind == "piped")))
     wl = [int(x) for x in _seq(b.get("wakers", []))]
     fillers = 0
+    ctl = False
     if kind != "waker":
         # WakerBits = (1 :> bit): `bit - 1` filler wakers come first (slot `base` is skipped by the runtime)
         bit = int(b.get("chanbit", 1))
-        fillers = bit - 1 - (bit // 4096)
+        ctl = 7 in wl
+        fillers = 0 if ctl else bit - 1 - (bit // 4096)
         wl = []
     return {"case": name, "kind": kind, "props": [], "wakers": wl, "threads": threads, "fillers": fillers,
             "main": _ops(b["main"]), "schedule": [int(x) for x in _seq(b["sched"])], "seed": 1, "fallback": "rr",
-            "autodrop": False,
+            "autodrop": False, "ctl": ctl,
             "pred_lo": _seq(b["lo"]), "pred_hi": _seq(b["hi"])}
 
 
